@@ -86,10 +86,10 @@ def tasks(tier, seed):
             for k in (2, 3):
                 out.append({"fn": "persistence", "kwargs": {"variant": variant, "species": k, "shape": [1, 1], "caps": False, "params": None},
                             "label": f"persistence/{variant}/species={k},1x1,caps=0,params=symbolic", "logic": "QF_NRA",
-                            "caps": {"max_seconds": 900, "max_paths": 40000, "solver_timeout_ms": 20000}})
+                            "caps": {"max_seconds": 300, "max_paths": 40000, "solver_timeout_ms": 10000}})
             for k in (1, 2):
                 out.append({"fn": "persistence", "kwargs": {"variant": variant, "species": k, "shape": [1, 2], "caps": False, "params": 0},
-                            "label": f"persistence/{variant}/species={k},1x2,caps=0,params=0", "caps": {"max_seconds": 1200, "max_paths": 40000}})
+                            "label": f"persistence/{variant}/species={k},1x2,caps=0,params=0", "caps": {"max_seconds": 600, "max_paths": 40000}})
     for direction in ("parallel", "serial"):
         for beta in (["sym"] if tier == "quick" else ["sym", 0.0, 0.5, 1.0]):
             for k in ([1] if tier == "quick" else [1, 2]):
